@@ -9,6 +9,7 @@ import (
 	"encoding/binary"
 	"errors"
 	"io"
+	"strings"
 	"sync"
 	"time"
 
@@ -67,6 +68,8 @@ type Container struct {
 	Labels  map[string]string
 	Log     []byte
 	OpenErr error
+	// CloseErr is what Close of this container's reader returns (the reader still counts as closed).
+	CloseErr error
 }
 
 // LogCall records one ContainerLogs call.
@@ -94,6 +97,7 @@ type Fake struct {
 
 	mu        sync.Mutex // guards the records below when the harness runs free (race pass)
 	ListCalls int
+	ListOpts  []apicontainer.ListOptions
 	Calls     []LogCall
 	Opened    []int // per container
 	Closed    []int // per container
@@ -117,17 +121,85 @@ func (f *Fake) yield(label string) {
 	}
 }
 
+// listed applies the options the way the daemon does: without All only running containers; filters name, id,
+// status, ancestor (any of the values) and label (all of the values, each `key` or `key=value`, on the raw
+// Docker label keys); any other filter key is an error, as with dockerd.
+func (f *Fake) listed(c Container, opts apicontainer.ListOptions) (bool, error) {
+	if !opts.All && c.State != "running" {
+		return false, nil
+	}
+	names := []string{c.Name}
+	if c.Names != nil {
+		names = c.Names
+	}
+	for _, key := range opts.Filters.Keys() {
+		vals := opts.Filters.Get(key)
+		any := func(pred func(v string) bool) bool {
+			for _, v := range vals {
+				if pred(v) {
+					return true
+				}
+			}
+			return false
+		}
+		switch key {
+		case "label":
+			for _, v := range vals {
+				k, want, hasVal := strings.Cut(v, "=")
+				got, ok := c.Labels[k]
+				if !ok || (hasVal && got != want) {
+					return false, nil
+				}
+			}
+		case "name":
+			if !any(func(v string) bool {
+				for _, n := range names {
+					if strings.Contains(strings.TrimPrefix(n, "/"), strings.TrimPrefix(v, "/")) {
+						return true
+					}
+				}
+				return false
+			}) {
+				return false, nil
+			}
+		case "id":
+			if !any(func(v string) bool { return strings.HasPrefix(c.ID, v) }) {
+				return false, nil
+			}
+		case "status":
+			if !any(func(v string) bool { return c.State == v }) {
+				return false, nil
+			}
+		case "ancestor":
+			if !any(func(v string) bool { return c.Image == v || c.ImageID == v }) {
+				return false, nil
+			}
+		default:
+			return false, errors.New("verif: invalid filter '" + key + "'")
+		}
+	}
+	return true, nil
+}
+
 // ContainerList implements client.APIClient.
-func (f *Fake) ContainerList(_ context.Context, _ apicontainer.ListOptions) ([]types.Container, error) {
+func (f *Fake) ContainerList(_ context.Context, opts apicontainer.ListOptions) ([]types.Container, error) {
 	f.yield("list")
 	f.mu.Lock()
 	f.ListCalls++
+	f.ListOpts = append(f.ListOpts, opts)
 	f.mu.Unlock()
 	if f.ListErr != nil {
 		return nil, f.ListErr
 	}
 	out := make([]types.Container, 0, len(f.Containers))
 	for _, c := range f.Containers {
+		ok, err := f.listed(c, opts)
+		if err != nil {
+			return nil, err
+		}
+		if !ok {
+			continue
+		}
 		names := []string{c.Name}
 		if c.Names != nil {
 			names = c.Names
@@ -225,5 +297,5 @@ func (r *reader) Close() error {
 	r.f.mu.Lock()
 	r.f.Closed[r.idx]++
 	r.f.mu.Unlock()
-	return nil
+	return r.f.Containers[r.idx].CloseErr
 }
